@@ -66,10 +66,10 @@ CHECKS = {
          "Concurrent callers with withheld acknowledgements, counter pre-positioned around 16-bit and 32-bit wrap-around, storms of 16-64 callers released at the wrap; ids must be non-zero and distinct from all unacknowledged requests; caller-set ids unchanged (also through RetryClient's queue). The full-cycle laggard history is a recorded known finding.",
          "Trusted: the monitor's outstanding-set bookkeeping. Sampled schedules.", "5/C15"),
  "C19": ("exploration", "independent error-chain walker vs errors.Is/As on generated chains; API-level cause and retry-handle replay on the wire",
-         "Seeded random chains from all sentinels and wrappers (depth<=8) checked against an independent chain walker for every sentinel and node as target; interrupted requests on a real client must expose the injected cause and a retry handle that re-issues the same request on a fresh client (decoded on the wire).",
+         "Seeded random chains from all sentinels and wrappers (depth<=8) checked against an independent chain walker for every sentinel and node as target; interrupted requests on a real client must expose the injected cause and a retry handle that re-issues the same request on a fresh client (decoded on the wire); with RetryClient.ResponseTimeout and acknowledgements dropped on first transmissions and retransmissions, every OnError value stemming from an expired deadline must satisfy errors.As(*RequestTimeoutError).",
          "Trusted: the chain walker. Domain: no pointer-to-non-struct error values; transports whose Write returns bare io.EOF excluded.", "5/C19"),
  "C20": ("exploration", "snapshot-equality monitor over mutating handlers behind ServeMux/ServeAsync with parked asynchronous handlers",
-         "Seeded rounds: every handler snapshots what it received and then mutates everything reachable; asynchronous handlers are parked until the dispatcher returned; snapshots must equal the caller's original and the caller's message must be unchanged; fan-out of one pointer to ServeAsync handlers and in-place mutating siblings.",
+         "Seeded rounds: every handler snapshots what it received and then mutates everything reachable; asynchronous handlers are parked until the dispatcher returned; snapshots must equal the caller's original, what a handler kept after its own changes must not be altered by siblings (zero-length payloads with spare capacity included) and the caller's message must be unchanged; fan-out of one pointer to ServeAsync handlers and in-place mutating siblings.",
          "Trusted: snapshot comparison. Sampled schedules for the asynchronous part.", "5/C20"),
 }
 
